@@ -36,6 +36,17 @@ func gather(blob []byte) []common.Hash {
 	return out
 }
 
+// safeGather turns the decoder's panic on a blob that is not a trie node (a shrink
+// candidate) into a harness shape error.
+func safeGather(blob []byte) (out []common.Hash) {
+	defer func() {
+		if recover() != nil {
+			panic("hxlib: blob is not a trie node")
+		}
+	}()
+	return gather(blob)
+}
+
 func leafBlob(root common.Hash) []byte {
 	b, _ := rlp.EncodeToBytes(&types.StateAccount{Nonce: 1, Balance: uint256.NewInt(1), Root: root, CodeHash: types.EmptyCodeHash[:]})
 	return b
@@ -451,7 +462,9 @@ func (s *synth) update(r *Rng, ids []int, adv bool) {
 		// invented reference; child id < parent id keeps the graph acyclic (a cycle makes the
 		// real commit/dereference recurse until the Go stack overflows, which cannot be caught)
 		if p := 1 + r.Intn(n); p > 1 {
-			acc.leaves = append(acc.leaves, [2]int{p, 1 + r.Intn(p-1)})
+			if c := 1 + r.Intn(p-1); s.u.known[p-1] && s.u.known[c-1] {
+				acc.leaves = append(acc.leaves, [2]int{p, c})
+			}
 		}
 	}
 	s.ops = append(s.ops, updateOp(sets))
@@ -520,7 +533,11 @@ func genSynth(r *Rng, cns int64, steps int, adv bool) Sx {
 				s.ops = append(s.ops, L(I(2), I(int64(r.Intn(n+1))))) // unmatched / zero dereference
 			case 1:
 				p := r.Intn(n + 1) // raw Reference, child id < parent id (acyclic) or parent 0
-				s.ops = append(s.ops, L(I(1), I(int64(r.Intn(max(p, 1)))), I(int64(p))))
+				c := r.Intn(max(p, 1))
+				if p > 0 && (!s.u.known[p-1] || c == 0 || !s.u.known[c-1]) {
+					p = 0 // dangling ids are not topologically ordered
+				}
+				s.ops = append(s.ops, L(I(1), I(int64(c)), I(int64(p))))
 			case 2:
 				s.ops = append(s.ops, L(I(4), I(int64(r.Intn(n+1)))))
 			case 3:
@@ -687,9 +704,15 @@ func run(c Sx) Result {
 		panic("hxlib: case shape")
 	}
 	cns := AsInt(l[0])
+	if cns != hashdb.VerifC21CachedNodeSize() || AsInt(l[1]) != ethdb.IdealBatchSize {
+		panic("hxlib: constants of the case differ from the implementation's")
+	}
 	cd := &caseData{ids: map[common.Hash]int{}}
 	for _, e := range AsList(l[4]) {
 		f := AsList(e)
+		if len(f) != 3 {
+			panic("hxlib: extra shape")
+		}
 		b := AsBytes(f[2])
 		if AsInt(f[0]) != len(cd.hash)+1 {
 			panic("hxlib: extra ids not consecutive")
@@ -717,12 +740,15 @@ func run(c Sx) Result {
 	kids := make([][]int, len(cd.hash))
 	for i, e := range wl {
 		f := AsList(e)
+		if len(f) != 3 {
+			panic("hxlib: world shape")
+		}
 		if AsInt(f[0]) != i+1 || AsInt(f[1]) != len(cd.blob[i]) {
 			panic("hxlib: world entry")
 		}
 		var real []int
 		if cd.blob[i] != nil {
-			for _, ch := range gather(cd.blob[i]) {
+			for _, ch := range safeGather(cd.blob[i]) {
 				real = append(real, int(cd.idOf(ch)))
 			}
 		}
@@ -762,9 +788,49 @@ func run(c Sx) Result {
 		return len(b) > 0 && crypto.Keccak256Hash(b) == cd.h(id)
 	}
 	nops, nupd, ncapFlush, ncommit, ngc := 0, 0, 0, 0, 0
+	// every external edge handed to the implementation must keep the graph acyclic: on a
+	// cycle the real commit/dereference recurse until the Go stack overflows (fatal, uncatchable)
+	xedges := map[int][]int{}
+	addEdge := func(child, parent int) {
+		if child <= 0 || parent <= 0 || child > len(cd.hash) || parent > len(cd.hash) {
+			return
+		}
+		seen := map[int]bool{}
+		var reach func(int) bool
+		reach = func(x int) bool {
+			if x == parent {
+				return true
+			}
+			if seen[x] {
+				return false
+			}
+			seen[x] = true
+			for _, k := range kids[x-1] {
+				if reach(k) {
+					return true
+				}
+			}
+			for _, k := range xedges[x] {
+				if reach(k) {
+					return true
+				}
+			}
+			return false
+		}
+		if reach(child) {
+			panic("hxlib: cyclic external reference")
+		}
+		xedges[parent] = append(xedges[parent], child)
+	}
 
 	for _, o := range AsList(l[3]) {
 		f := AsList(o)
+		if len(f) == 0 {
+			panic("hxlib: empty op")
+		}
+		if want := map[int]int{0: 4, 1: 3, 2: 2, 3: 2, 4: 2}[AsInt(f[0])]; want == 0 || len(f) != want {
+			panic("hxlib: op shape")
+		}
 		before := snapshot(cd, hdb, disk)
 		panicked := false
 		func() {
@@ -792,6 +858,9 @@ func run(c Sx) Result {
 				var csets []cset
 				for _, s := range sets {
 					sf := AsList(s)
+					if len(sf) != 3 {
+						panic("hxlib: set shape")
+					}
 					owner := common.Hash{}
 					if ob := AsInt(sf[0]); ob != 0 {
 						owner = common.BytesToHash([]byte{byte(ob)})
@@ -800,6 +869,9 @@ func run(c Sx) Result {
 					var ps []pathNode
 					for _, pn := range AsList(sf[1]) {
 						pf := AsList(pn)
+						if len(pf) != 2 {
+							panic("hxlib: path node shape")
+						}
 						id := AsInt(pf[1])
 						if id <= 0 || id > len(cd.hash) || cd.blob[id-1] == nil {
 							panic("hxlib: update node without blob")
@@ -816,9 +888,13 @@ func run(c Sx) Result {
 					}
 					for _, lf := range AsList(sf[2]) {
 						lp := AsList(lf)
+						if len(lp) != 2 || AsInt(lp[0]) <= 0 || AsInt(lp[0]) > len(cd.hash) || AsInt(lp[1]) <= 0 || AsInt(lp[1]) > len(cd.hash) {
+							panic("hxlib: leaf shape")
+						}
 						ns.AddLeaf(cd.h(AsInt(lp[0])), leafBlob(cd.h(AsInt(lp[1]))))
 						if owner == (common.Hash{}) {
 							gotRefs = append(gotRefs, [2]int{AsInt(lp[1]), AsInt(lp[0])})
+							addEdge(AsInt(lp[1]), AsInt(lp[0]))
 						}
 					}
 					csets = append(csets, cset{owner, ns})
@@ -833,6 +909,9 @@ func run(c Sx) Result {
 				}
 				for i := range refs {
 					rf := AsList(refs[i])
+					if len(rf) != 2 {
+						panic("hxlib: ref shape")
+					}
 					if AsInt(rf[0]) != gotRefs[i][0] || AsInt(rf[1]) != gotRefs[i][1] {
 						panic("hxlib: update refs")
 					}
@@ -911,6 +990,9 @@ func run(c Sx) Result {
 					guarded = false
 				}
 				refd[ch]++
+				if p != 0 {
+					addEdge(ch, p)
+				}
 				tdb.Reference(cd.h(ch), cd.h(p))
 			case 2:
 				r := AsInt(f[1])
